@@ -2,6 +2,7 @@ package basm
 
 import (
 	"fmt"
+	"sort"
 	"strconv"
 
 	"github.com/BondMachineHQ/BondMachine/pkg/bondmachine"
@@ -68,7 +69,8 @@ func (bi *BasmInstance) Assembler2Cluster() error {
 		fmt.Println(green("Creating cluster and peers"))
 	}
 
-	for edgeName, edgeId := range bi.clusteredNames {
+	for _, edgeName := range sortedNameKeys(bi.clusteredNames) {
+		edgeId := bi.clusteredNames[edgeName]
 		if bi.debug {
 			fmt.Println(green("\tProcessing BM:"), red(edgeName), green("id"), blue(edgeId))
 		}
@@ -97,13 +99,15 @@ func (bi *BasmInstance) Assembler2Cluster() error {
 	if bi.debug {
 		fmt.Println(green("Creating metadata for clustered bond machines"))
 	}
-	for edgeName, edgeId := range bi.clusteredNames {
+	for _, edgeName := range sortedNameKeys(bi.clusteredNames) {
+		edgeId := bi.clusteredNames[edgeName]
 		if bi.debug {
 			fmt.Println(green("\tProcessing BM:"), red(edgeName), green("id"), blue(edgeId))
 		}
 
 		// Write the global metadata unchanged
-		for key, value := range bi.global.LoopMeta() {
+		for _, key := range sortedMetaKeys(bi.global.LoopMeta()) {
+			value := bi.global.LoopMeta()[key]
 			bi.clusteredBondMachines[edgeId] += "%meta bmdef global " + key + ":" + value + "\n"
 		}
 
@@ -120,7 +124,8 @@ func (bi *BasmInstance) Assembler2Cluster() error {
 					fmt.Println(green("\t\tAdding cp:"), red(cp.GetValue()), green("to BM:"), red(edgeName))
 				}
 				meta := "%meta cpdef " + cp.GetValue()
-				for key, value := range cp.LoopMeta() {
+				for _, key := range sortedMetaKeys(cp.LoopMeta()) {
+					value := cp.LoopMeta()[key]
 					if key != "templated" && key != "device" && key != "devid" {
 						meta += " " + key + ":" + value + ","
 					}
@@ -166,13 +171,15 @@ func (bi *BasmInstance) Assembler2Cluster() error {
 					devName := cpDev[other]
 					devId := bi.clusteredNames[devName]
 					meta := "%meta ioatt " + l2.GetValue()
-					for key, value := range l2.LoopMeta() {
+					for _, key := range sortedMetaKeys(l2.LoopMeta()) {
+						value := l2.LoopMeta()[key]
 						meta += " " + key + ":" + value + ","
 					}
 					bi.clusteredBondMachines[devId] += meta[:len(meta)-1] + "\n"
 
 					meta = "%meta ioatt " + l1.GetValue()
-					for key, value := range l1.LoopMeta() {
+					for _, key := range sortedMetaKeys(l1.LoopMeta()) {
+						value := l1.LoopMeta()[key]
 						if key == "index" {
 							if l1.GetMeta("type") == "input" {
 								meta += " " + key + ":" + strconv.Itoa(iCounter[devId]) + ","
@@ -195,13 +202,15 @@ func (bi *BasmInstance) Assembler2Cluster() error {
 					devName := cpDev[other]
 					devId := bi.clusteredNames[devName]
 					meta := "%meta ioatt " + l1.GetValue()
-					for key, value := range l1.LoopMeta() {
+					for _, key := range sortedMetaKeys(l1.LoopMeta()) {
+						value := l1.LoopMeta()[key]
 						meta += " " + key + ":" + value + ","
 					}
 					bi.clusteredBondMachines[devId] += meta[:len(meta)-1] + "\n"
 
 					meta = "%meta ioatt " + l2.GetValue()
-					for key, value := range l2.LoopMeta() {
+					for _, key := range sortedMetaKeys(l2.LoopMeta()) {
+						value := l2.LoopMeta()[key]
 						if key == "index" {
 							if l2.GetMeta("type") == "input" {
 								meta += " " + key + ":" + strconv.Itoa(iCounter[devId]) + ","
@@ -227,13 +236,15 @@ func (bi *BasmInstance) Assembler2Cluster() error {
 					// The bonds are within the same device
 					devId := bi.clusteredNames[l1DevName]
 					meta := "%meta ioatt " + l1.GetValue()
-					for key, value := range l1.LoopMeta() {
+					for _, key := range sortedMetaKeys(l1.LoopMeta()) {
+						value := l1.LoopMeta()[key]
 						meta += " " + key + ":" + value + ","
 					}
 					bi.clusteredBondMachines[devId] += meta[:len(meta)-1] + "\n"
 
 					meta = "%meta ioatt " + l2.GetValue()
-					for key, value := range l2.LoopMeta() {
+					for _, key := range sortedMetaKeys(l2.LoopMeta()) {
+						value := l2.LoopMeta()[key]
 						meta += " " + key + ":" + value + ","
 					}
 					bi.clusteredBondMachines[devId] += meta[:len(meta)-1] + "\n"
@@ -242,7 +253,8 @@ func (bi *BasmInstance) Assembler2Cluster() error {
 				} else {
 					dev1Id := bi.clusteredNames[l1DevName]
 					meta := "%meta ioatt " + l1.GetValue()
-					for key, value := range l1.LoopMeta() {
+					for _, key := range sortedMetaKeys(l1.LoopMeta()) {
+						value := l1.LoopMeta()[key]
 						meta += " " + key + ":" + value + ","
 					}
 					bi.clusteredBondMachines[dev1Id] += meta[:len(meta)-1] + "\n"
@@ -257,7 +269,8 @@ func (bi *BasmInstance) Assembler2Cluster() error {
 					}
 
 					meta = "%meta ioatt " + l1.GetValue()
-					for key, value := range l1.LoopMeta() {
+					for _, key := range sortedMetaKeys(l1.LoopMeta()) {
+						value := l1.LoopMeta()[key]
 						switch key {
 						case "index":
 							if l1.GetMeta("type") == "input" {
@@ -281,7 +294,8 @@ func (bi *BasmInstance) Assembler2Cluster() error {
 
 					dev2Id := bi.clusteredNames[l2DevName]
 					meta = "%meta ioatt " + l2.GetValue()
-					for key, value := range l2.LoopMeta() {
+					for _, key := range sortedMetaKeys(l2.LoopMeta()) {
+						value := l2.LoopMeta()[key]
 						meta += " " + key + ":" + value + ","
 					}
 					bi.clusteredBondMachines[dev2Id] += meta[:len(meta)-1] + "\n"
@@ -295,7 +309,8 @@ func (bi *BasmInstance) Assembler2Cluster() error {
 					}
 
 					meta = "%meta ioatt " + l2.GetValue()
-					for key, value := range l2.LoopMeta() {
+					for _, key := range sortedMetaKeys(l2.LoopMeta()) {
+						value := l2.LoopMeta()[key]
 						switch key {
 						case "index":
 							if l2.GetMeta("type") == "input" {
@@ -325,4 +340,25 @@ func (bi *BasmInstance) Assembler2Cluster() error {
 		}
 	}
 	return nil
+}
+
+// sortedMetaKeys returns the keys of a metadata map in lexical order: the emitted cluster files
+// must not depend on the map iteration order
+func sortedMetaKeys(m map[string]string) []string {
+	keys := make([]string, 0, len(m))
+	for k := range m {
+		keys = append(keys, k)
+	}
+	sort.Strings(keys)
+	return keys
+}
+
+// sortedNameKeys returns the device names in lexical order
+func sortedNameKeys(m map[string]int) []string {
+	keys := make([]string, 0, len(m))
+	for k := range m {
+		keys = append(keys, k)
+	}
+	sort.Strings(keys)
+	return keys
 }
